@@ -44,6 +44,10 @@ class _Step:
         self.name = name
 
     def __call__(self, u, aux=None):
+        if sym.CONCRETE_ABSTRACT[0]:  # replay mode: a fixed concrete step (same formula natively and in the shim)
+            import jax.tree_util as _jtu
+            extra = 0.0 if aux is None else 0.01 * sum(l.sum() for l in _jtu.tree_leaves(aux, is_leaf=lambda x: isinstance(x, SArr)))
+            return _jtu.tree_map(lambda l: 0.5 * l * l + 0.1 + extra, u, is_leaf=lambda x: isinstance(x, SArr))
         leaves = [const_arr(l) for l in rules._leaves(u)] + ([const_arr(l) for l in rules._leaves(aux)] if aux is not None else [])
         out = []
         for li, leaf in enumerate(rules._leaves(u)):
